@@ -35,11 +35,11 @@ def run_case(cs, ctx):
     v['twopl'] = True
     if cs % 97 == 5 and mp in ('hr', 'spa'):
         # a second-side list with more than 1000 entries
-        v.update({'n1': rng.randint(1050, 1300), 'n2': 2, 'pmin': 1, 'pmax': 2, 'uq': 1400, 'numinst': 1,
+        v.update({'n1': rng.randint(1050, 1300), 'n2': 1, 'pmin': 1, 'pmax': 1, 'uq': 1400, 'numinst': 1,
                   't2': rng.choice([None, 0.0, 0.3]), 't1': 0.0})
         v.pop('lq', None)
         if mp == 'spa':
-            v.update({'n3': rng.choice([1, 2]), 'luq': 1400})
+            v.update({'n3': 1, 'luq': 1400})
             v.pop('lt', None)
             v.pop('llq', None)
         ctx.cov('list_longer_than_1000')
@@ -61,6 +61,8 @@ def run_case(cs, ctx):
         except op.ParseError as e:
             ctx.cnt('unobservable_file_does_not_parse')
             ctx.finding(en.F('C08', 'file_check', 'file does not parse: %s' % e), c2)
+            # a second-side list that cannot even be read does not rank the agents that accept it
+            ctx.finding(en.F('C12', 'second_side_readable', '%s/%s: the lists cannot be read: %s' % (mp, n, e)), c2)
             continue
         ctx.cnt('files_checked')
         ctx.cov('type_' + mp)
